@@ -33,7 +33,8 @@ def envs(snap, shard_args_list):
 def floors(m, tier):
     u, k = BUDGET[tier]
     c = m.counters
-    f = {"rule evaluations": (c.get("rule_evals", 0), u * k)}
+    f = {"rule evaluations": (c.get("rule_evals", 0), u * k),
+         "FindInConstants asked directly": (c.get("constants_finder_asked_directly", 0), u)}
     for r in ("comma", "alias", "dstar", "filter", "literal", "match"):
         f["rule %s non-empty" % r] = (c.get("nonempty:" + r, 0), max(10, u // 4))
     return f
@@ -80,9 +81,18 @@ def derive(lab, s):
             maxn = model.max_len - (len(segs) - 1)
             ders = ["/".join(segs[:i] + ["*"] * n + segs[i + 1:]) + tail for n in range(0, maxn + 1)]
 
-            def post(r, leaf=leaf):
+            def post(r, d, leaf=leaf):
+                # "restricted to leaf types": r must be a result of a LEAF-typed form of the derived search d
+                # (a list Finder also returns textual matches of non-leaf typed forms, e.g. 'x/*b' read as a node name)
                 t = model.natural(r)
-                return t is not None and t.keys[-1] == leaf
+                if t is None or t.keys[-1] != leaf:
+                    return False
+                try:
+                    forms = lab.allmodel.unfold(d)
+                except Exception:
+                    return True
+                from lib.refmodel import gmatch
+                return any(tn == t.name and gmatch(f, r) for tn, f in forms)
             yield ("dstar", ders, post)
 
 
@@ -104,7 +114,7 @@ def check_pair(rec, lab, name, finder, rule, s, ders, post, case):
             return
         if r is None:
             return
-        rhs |= {x for x in r if post is None or post(x)}
+        rhs |= {x for x in r if post is None or post(x, d)}
     rec.count("rule_evals")
     rec.count("rule:" + rule)
     if lhs:
@@ -183,7 +193,7 @@ def check_filter_and_literal(rec, lab, name, finder, s, case):
                     if set(got) != exp:
                         rec.violation("algebra_filter", c, "missing=%r extra=%r" % (sorted(exp - set(got))[:5], sorted(set(got) - exp)[:5]))
     # (5) literal for '*'
-    fkeys = {p.split("=")[0] for p in q.split("&") if "=" in p}
+    fkeys = {p.split("=")[0] for p in q.replace("?", "&").split("&") if "=" in p}      # ('?' is an alternative pair separator)
     stars = [i for i, seg in enumerate(segs) if seg == "*" and "**" not in segs[:i]
              and not any(len(model.by_name[t].keys) > i and model.by_name[t].keys[i] in fkeys for t, _f in forms)]
     if stars:
@@ -216,6 +226,18 @@ def add_dup_finder(lab):
     lab.finders["list_dup"] = FindInList(L + L[::3] + L[::7])
 
 
+def add_const_finders(lab):
+    """The FindInConstants instances of the live data configuration, asked directly (each is a Finder of its own)."""
+    am = lab.allmodel
+    for e in lab.full:
+        t = lab.model.natural(e)
+        if t is None:
+            continue
+        F = am.finder_for(t.name, e)
+        if isinstance(F, am.FIC) and ("const:" + F.key) not in lab.finders:
+            lab.finders["const:" + F.key] = F
+
+
 def worker(args):
     from lib.findlab import Lab, filter_is_unspecified
     rec = Rec("C10")
@@ -226,6 +248,7 @@ def worker(args):
         rec.ev()
         lab.new_universe(ents=c["ents"], names=c.get("names"), only_default=c.get("only_default"))
         add_dup_finder(lab)
+        add_const_finders(lab)
         f = lab.finders[c["finder"]]
         if c.get("rule") in ("comma", "alias", "dstar"):
             for rule, ders, post in derive(lab, c["search"]):
@@ -240,6 +263,7 @@ def worker(args):
         ents = lab.new_universe(names=(rng.sample(["a", "a-b", "ab", "b", "oph", "x_rig", "a.b", "rig"], 3) if rng.random() < 0.5
                                         else sorted({"rig", "x_rig", rng.choice(["a", "b", "oph"])})))
         add_dup_finder(lab)
+        add_const_finders(lab)
         uid = "%s-%d" % (args.get("seed"), u)
         case = {"ents": ents, "names": lab.names, "only_default": lab.only_default, "uid": uid}
         for k in range(args["searches"]):
@@ -252,7 +276,12 @@ def worker(args):
                 finders = [rng.choice(finders)]
             for name, f in finders:
                 for rule, ders, post in derive(lab, s):
+                    if name.startswith("const:") and rule == "dstar":
+                        continue    # (a constants Finder answers its own level of every typed search: the leaf restriction is not its)
                     check_pair(rec, lab, name, f, rule, s, ders, post, case)
+                if name.startswith("const:"):
+                    rec.count("constants_finder_asked_directly")
+                    continue        # (rules 4-6 need the existence model of a whole hierarchy)
                 check_filter_and_literal(rec, lab, name, f, s, case)
         if u == 0:
             rec.sample({"entities": ents[:5], "search": s, "derived": [(r, d[:3]) for r, d, _p in derive(lab, s)]})
